@@ -49,9 +49,9 @@ def family(tier):
         if sk == 'after':
             scope_variants = [(ev('s'), None, None), (ev('s', 'S'), None, 'S')]
         elif sk == 'until':
-            scope_variants = [(None, ev('e'), None), (None, ev('e', None, veq(1)), None)]
+            scope_variants = [(None, ev('e'), None), (None, ev('e', None, veq(1)), None), (None, disj([ev('e'), ev('g')]), None)]
         elif sk == 'after_until':
-            scope_variants = [(ev('s'), ev('e'), None), (ev('s', 'S'), ev('e', None, vref('S')), 'S')]
+            scope_variants = [(ev('s'), ev('e'), None), (ev('s', 'S'), ev('e', None, vref('S')), 'S'), (ev('s'), disj([ev('e'), ev('g', None, veq(1))]), None)]
         for act, term, salias in scope_variants:
             for pk in props.PATTERNS:
                 sp = props.SPLIT_POSITION[pk]
@@ -67,6 +67,8 @@ def family(tier):
                         for ow in range(1, (b['other_width'] if two else 1) + 1):
                             if tier == 'quick' and ow == 2 and (w == 3 or deco not in ('plain', 'alias')):
                                 continue
+                            if term is not None and term[0] == 'evor' and (w == 3 or ow == 2 or deco not in ('plain', 'pred_first')):
+                                continue  # a disjunctive terminator (never split): a thinner slice of the other axes
                             alts = []
                             opred = props.PTRUE
                             oalias = None
@@ -197,6 +199,14 @@ def check_property(p, tier, r=None, want_cex=False, route='parser'):
             if obj is None:
                 return problems
         text = text + ' [first alternative of every disjunction replaced with but()]'
+    elif route == 'api-min':
+        # a lower time bound has no syntax: the pattern is built through the API with the window [1 s, 2 s]
+        p = (p[0], p[1], p[2][:4] + (1.0, 2.0))
+        try:
+            st, obj = 'ok', absyn.build(p)
+        except Exception as e:  # noqa: BLE001
+            st, obj = impl.outcome_class(e), e
+        text = absyn.property_text(p, time=time_text(2.0)) + ' [API, min_time = 1 s]'
     else:
         try:
             st, obj = 'ok', absyn.build(left_nested(p))
@@ -227,6 +237,7 @@ def check_property(p, tier, r=None, want_cex=False, route='parser'):
     tps = topics_of(lp) + ['o']
     payloads = (0, 1) if uses_payload(lp) else (0,)
     timed = lp[2][5] != INF
+    assert route != 'api-min' or lp[2][4] == 1.0, lp[2]
     # largest trace length within the bound whose complete trace set fits the budget
     nletters = len(tps) * len(payloads) * (3 if timed else 1)
     L = b['trace_len']
@@ -321,8 +332,10 @@ def run(unit):
             probs += check_property(p, tier, r, route='api-left')
         if widest == 2 and p[2][5] == INF:
             probs += check_property(p, tier, r, route='derived')
+        if widest == 2 and p[2][5] != INF:
+            probs += check_property(p, tier, r, route='api-min')
         for kind_, detail in probs:
-            r.violation(f'{kind_} [{p[1][1]}, {p[2][1]}]', {'property': p, 'text': absyn.property_text(p, time=time_text(p[2][5])), 'api_left': 'left-nested' in detail}, detail, size=len(absyn.property_text(p, time=time_text(p[2][5]))))
+            r.violation(f'{kind_} [{p[1][1]}, {p[2][1]}]', {'property': p, 'text': absyn.property_text(p, time=time_text(p[2][5])), 'api_left': 'left-nested' in detail, 'api_min': 'min_time' in detail, 'derived': 'replaced with but()' in detail}, detail, size=len(absyn.property_text(p, time=time_text(p[2][5]))))
         if len(r.samples) < 1:
             r.sample({'property': absyn.property_text(p, time=time_text(p[2][5]))})
     return r
@@ -333,13 +346,13 @@ def replay(w):
 
     p = _detuple(w['property'])
     # floats survive json; tuples restored
-    return [{'sig': k, 'detail': d} for k, d in check_property(p, 'thorough', route='api-left' if w.get('api_left') else 'parser')]
+    return [{'sig': k, 'detail': d} for k, d in check_property(p, 'thorough', route='api-left' if w.get('api_left') else 'api-min' if w.get('api_min') else 'derived' if w.get('derived') else 'parser')]
 
 
 def describe(tier):
     b = bounds(tier)
     return {
-        'rule': f"properties: 4 scope kinds (activator simple, with/without alias; terminator with/without predicate) x 5 pattern kinds x width 1..{b['max_width']} at the position canonical_form splits (behaviour for existence, to see it is left alone) x other event width 1..{b['other_width']} x decorations (plain, predicate on first / all alternatives, alias bound on every alternative and used by the other event or vice versa, activator alias used by every alternative) x time bound (none, {b['time_bounds_s']} s); x all timed traces of length <= {b['trace_len']} (per property the largest length whose complete trace set has <= {b['trace_budget']} traces, never below 2; histogram in outcome_histogram trace_len=*) over mentioned topics + 'o', payload v in {{0,1}} where predicates exist, gaps 0/1/2 s, end slack 0/3 s. evaluations = properties; validated = traces on which the property and the conjunction of its canonical form were compared; nontrivial = properties with a disjunction at the split position.",
+        'rule': f"properties: 4 scope kinds (activator simple, with/without alias; terminator with/without predicate) x 5 pattern kinds x width 1..{b['max_width']} at the position canonical_form splits (behaviour for existence, to see it is left alone) x other event width 1..{b['other_width']} x decorations (plain, predicate on first / all alternatives, alias bound on every alternative and used by the other event or vice versa, activator alias used by every alternative) x time bound (none, {b['time_bounds_s']} s); x all timed traces of length <= {b['trace_len']} (per property the largest length whose complete trace set has <= {b['trace_budget']} traces, never below 2; histogram in outcome_histogram trace_len=*) over mentioned topics + 'o', payload v in {{0,1}} where predicates exist, gaps 0/1/2 s, end slack 0/3 s. Also: disjunctive terminators (never split) on a thinner slice of the other axes; properties with two alternatives are additionally taken through three other routes: API left-nested, derived with but() from a canonicalised property, and API-built with the time window [1 s, 2 s] (min_time has no syntax; read as the start of the window). evaluations = properties; validated = traces on which the property and the conjunction of its canonical form were compared; nontrivial = properties with a disjunction at the split position.",
         'bounds': b,
         'exhaustive': True,
         'assumptions': [
